@@ -44,6 +44,15 @@ checks = {
  "C12": dict(engine="wgen+irstrict+vworker+race detector", technique="runtime monitoring: byte equality across fresh processes, backend orders on a shared module and a reused spirv.Backend; canonical module dump before/after every backend; Go race detector over concurrent compilations with output comparison",
    text="Held on the histories and schedules observed: all 24 orders of four backends for part of the programs, random orders otherwise, 2/4/16 goroutines behind a start barrier on separate and shared modules.",
    note="dxil.Compile and the PipelineConstants paths mutate their input module (finding F57, whose repair would break a golden that encodes the history dependence); they are exercised as a witness only. Schedules are sampled, not enumerated.", ref="DESIGN.md §4 C12"),
+ "C06": dict(engine="wgen+wref+spvx", technique="runtime monitoring: the same expression tree is compiled in compile-time positions (module const, function const, const_assert, array size, workgroup size, switch selector, initialiser) and in a run-time position fed from a buffer; both are executed in the SPIR-V interpreter and compared with the WGSL reference evaluator",
+   text="Held on the (expression, embedding) pairs observed: the compile-time value equals the run-time value where WGSL defines both identically, a shader-creation error is reported exactly when the reference evaluator says the const-expression is one.",
+   note="Trusted base: wref (const- and run-time evaluation rules incl. abstract numerics), spvx. Listed findings (module-scope builtins, const matrix +/-, abstract-int range, switch / array-size / workgroup-size forms) are attributed per embedding class or gated.", ref="DESIGN.md §4 C06"),
+ "C07": dict(engine="wgen+wlayout+spvx+text interpreters", technique="runtime monitoring: for randomly built host-shareable type trees, (a) member offsets, spans and strides of the lowered IR are compared with an independent WGSL layout calculator, (b) a write probe stores a sentinel into every scalar leaf and a read probe copies every leaf of an offset-coded buffer; both are compiled by all four backends and executed in the matching interpreter, which addresses memory by the target's own rules: each sentinel must land at the WGSL byte offset of its leaf",
+   text="Held on the type trees observed (nested structs, arrays, matrices, vec3 tails, @size/@align within the gated subset) in storage and uniform address spaces.",
+   note="Trusted base: wlayout (WGSL §13.4), spvx and the text interpreters' own layout engines (std430/std140, Metal ABI, HLSL byte addresses).", ref="DESIGN.md §4 C07"),
+ "C14": dict(engine="wgen+wref+irx+spvx+text interpreters", technique="runtime monitoring: generated programs with overrides x value maps x resolution paths (ir.ProcessOverrides + IR interpreter / SPIR-V / HLSL / MSL / GLSL interpreters, glsl and msl PipelineConstants options); buffers compared with the reference evaluator binding the same values; canonical-dump monitor on the caller's module; hostile value maps; template campaign for derived workgroup sizes and module-scope initialisers",
+   text="Held on the executions observed inside the operator subset naga's float64 override evaluator implements; four defects found by this check were repaired (fix: commits), the remaining ones (initialisers mentioning constants, non-arithmetic operators in initialisers, overrides in @workgroup_size, backend options with an empty map, MSL compound defaults, caller-module mutation) are listed findings.",
+   note="Trusted base: wref (override-expressions evaluated as pipeline-creation constants: an overflow makes the case out of scope), irx, spvx, text interpreters.", ref="DESIGN.md §4 C14"),
 }
 pending = {}
 for p in ALL:
@@ -53,7 +62,7 @@ m = {
  "version": 1,
  "setup_cmd": "cd /verif && ./build.sh",
  "hooks": {"guard": "verif", "enable": "go build -tags verif (checks build /repo through the replace directive in /verif/go.mod)",
-           "baseline_off_cmd": "cd /repo && go test -vet=off -count=1 -timeout 25m ./...", "source_commits": [], "add_only": True},
+           "baseline_off_cmd": "cd /repo && go test -vet=off -count=1 -timeout 25m ./...", "source_commits": ["c0562c9"], "add_only": True},
  "engines": [
   {"name": "wgen", "path": "internal/wgen", "serves_properties": ALL, "kind_free_text": "type-directed generator of well-typed WGSL compute modules: typed AST, printer with token table, reducer, feature gates"},
   {"name": "wref", "path": "internal/wref", "serves_properties": ["C01","C03","C04","C05","C06","C07","C14","C15","C16"], "kind_free_text": "WGSL reference evaluator over the wgen AST (specification side of the differential monitors)"},
